@@ -217,7 +217,7 @@ def run_cal(ctx, cid, n_iter):
         b = a + dist
         if lo <= b <= hi:
             e = gen.date_of(b, cal)
-            masks = [1, 2, 4, 8, 3, 15, 9, 10] + [rng.randint(1, 15) for _ in range(2)]
+            masks = [1, 2, 4, 8, 3, 11, 15, 9, 10] + [rng.randint(1, 15) for _ in range(2)]
             for k in masks:
                 between_date(ctx, C, x, e, a, b, k)
             # date-times
@@ -299,6 +299,13 @@ def between_date(ctx, C, s, e, a, b, k):
         ctx.V("C09:between-date-days", f"{cid} between(day {a}, day {b}, DAYS) = {p!r}", case, c[3], b - a)
     if k == 4 and c[2] != (abs(b - a) // 7) * (1 if b >= a else -1):
         ctx.V("C09:between-date-weeks", f"{cid} between(day {a}, day {b}, WEEKS) = {p!r}", case, c[2])
+    if k == 11:
+        try:
+            q = e - s
+            if q != p or (s + q) != e or e.minus(s) != p:
+                ctx.V("C09:date-subtraction", f"{cid} {gen.ymd(e)} - {gen.ymd(s)} = {q!r}; Period.between(YEAR_MONTH_DAY) = {p!r}; start + difference = {gen.ymd(s + q)}", case, repr(q), repr(p))
+        except Exception as ex:  # noqa: BLE001
+            ctx.exc(ex); ctx.V(f"C09:date-subtraction-raised:{cid}", f"{cid} {gen.ymd(e)} - {gen.ymd(s)} raised {ex!r}", case, repr(ex))
     if k == 8:
         if Period.days_between(s, e) != b - a:
             ctx.V("C09:days_between", f"{cid} Period.days_between(day {a}, day {b}) = {Period.days_between(s, e)}", case)
@@ -403,6 +410,22 @@ def run_misc(ctx, n):
         b = p.to_builder().build()
         if b != p or hash(b) != hash(p) or comps(b) != c:
             ctx.V("C09:builder-roundtrip", f"{p!r}.to_builder().build() = {b!r}", case)
+    # period algebra is component-wise
+    for _ in range(n // 4):
+        a = [rng.choice([0, rng.randint(-50, 50)]) for _ in range(10)]; b = [rng.choice([0, rng.randint(-50, 50)]) for _ in range(10)]
+        pa = PeriodBuilder(**dict(zip(NAMES, a))).build(); pb = PeriodBuilder(**dict(zip(NAMES, b))).build()
+        ctx.ev(); ctx.count("normalize")
+        case = {"kind": "algebra", "a": a, "b": b}
+        if comps(pa + pb) != [x + y for x, y in zip(a, b)] or comps(Period.add(pa, pb)) != [x + y for x, y in zip(a, b)]:
+            ctx.V("C09:period-add", f"{pa!r} + {pb!r} = {pa + pb!r} is not the component-wise sum", case)
+        if comps(pa - pb) != [x - y for x, y in zip(a, b)] or comps(Period.subtract(pa, pb)) != [x - y for x, y in zip(a, b)]:
+            ctx.V("C09:period-sub", f"{pa!r} - {pb!r} = {pa - pb!r} is not the component-wise difference", case)
+        if pa.has_date_component != any(a[:4]) or pa.has_time_component != any(a[4:]):
+            ctx.V("C09:period-has-component", f"{pa!r}: has_date_component={pa.has_date_component} has_time_component={pa.has_time_component}", case)
+        k = rng.randrange(10); v = rng.randint(-10**6, 10**6)
+        one = getattr(Period, "from_" + NAMES[k])(v)
+        if comps(one) != [v if i == k else 0 for i in range(10)]:
+            ctx.V("C09:period-factory", f"Period.from_{NAMES[k]}({v}) = {one!r}", case)
     ctx.sample({"kind": "normalize", "c": [0, 0, 1, -3, 25, 0, 0, 0, 7, 0]})
     for k in REQUIRED["any"]:
         ctx.counters.setdefault(k, 0)
